@@ -65,6 +65,8 @@ class Ctx:
 
     def violation(self, rule, key, desc, loc=None, detail=None):
         full = "%s|%s" % (rule, key)
+        if any(i.rule == rule and i.key == key and i.status in ("violation", "known") for i in self.instances):
+            return
         for k in self.known:
             if k["key"] == full:
                 self.instances.append(Instance(rule, key, desc, "known", loc, detail))
